@@ -18,6 +18,9 @@ import (
 
 const vsPath = "vsched"
 
+// testMode: also rewrite _test.go files (conformance run of the repository's own suite on the rewritten sources).
+var testMode bool
+
 func main() {
 	if len(os.Args) < 4 {
 		fmt.Fprintln(os.Stderr, "usage: rewrite plain|sched <srcdir> <dstdir>")
@@ -36,7 +39,7 @@ func main() {
 	nfiles := 0
 	for _, e := range ents {
 		n := e.Name()
-		if e.IsDir() || !strings.HasSuffix(n, ".go") || strings.HasSuffix(n, "_test.go") {
+		if e.IsDir() || !strings.HasSuffix(n, ".go") || (strings.HasSuffix(n, "_test.go") && mode != "tests") {
 			continue
 		}
 		ok, err := ctx.MatchFile(src, n)
@@ -53,13 +56,14 @@ func main() {
 			os.Exit(2)
 		}
 		out := b
-		if mode == "sched" {
+		if mode == "sched" || mode == "tests" {
+			testMode = mode == "tests"
 			out, err = rewriteFile(n, b, stats)
 			if err != nil {
 				fmt.Fprintln(os.Stderr, "rewrite: cannot instrument", n, err)
 				os.Exit(2)
 			}
-			if err := scanClosed(n, out); err != nil {
+			if err := scanClosed(n, out); err != nil && mode == "sched" {
 				fmt.Fprintln(os.Stderr, "rewrite: cannot instrument (fail-closed scan):", err)
 				os.Exit(2)
 			}
@@ -202,6 +206,11 @@ func (r *rw) expr(e ast.Expr) ast.Expr {
 					r.used = true
 					r.stats["sleep"]++
 					x.Fun = sel("vs", "Sleep")
+				}
+				if testMode && id.Name == "time" && s.Sel.Name == "After" {
+					r.used = true
+					r.stats["after"]++
+					x.Fun = sel("vs", "After")
 				}
 				if id.Name == "os" && s.Sel.Name == "Remove" {
 					r.used = true
@@ -548,5 +557,17 @@ func rewriteFile(name string, src []byte, stats map[string]int) ([]byte, error) 
 	out := buf.Bytes()
 	// unused imports (time/os) after rewriting are handled by adding blank uses.
 	out = append(out, []byte("\nvar _ vs.Mutex\n")...)
+	for _, im := range f.Imports {
+		switch im.Path.Value {
+		case `"time"`:
+			if im.Name == nil {
+				out = append(out, []byte("var _ time.Duration\n")...)
+			}
+		case `"os"`:
+			if im.Name == nil {
+				out = append(out, []byte("var _ os.FileMode\n")...)
+			}
+		}
+	}
 	return out, nil
 }
